@@ -111,6 +111,7 @@ def configs(draw, tier):
             "length": length, "closes": closes, "cancel": list(cancel) if cancel else None,
             "between": draw(st.booleans()), "close_after_cancel": draw(st.booleans()),
             "dual": draw(st.sampled_from([False, False, True])),
+            "late_index": draw(st.sampled_from([False, False, True])),
             # nested: child 0 is not consumed directly but handed, un-advanced, to a second tee with a lock of its own
             "nested": draw(st.sampled_from([0, 0, 0, 2, 3])) if n <= 3 else 0,
             "choices": draw(st.lists(st.integers(0, 3), max_size=60))}
@@ -125,7 +126,7 @@ def run_config(case, choices=None, default="rr"):
     if lock is not None and case.get("lock_falsy"):
         lock.falsy = True
     handle = a.tee(src, n, lock=lock) if lock is not None else a.tee(src, n)
-    children = list(handle)
+    children = list(handle) if not (case.get("late_index") and not case.get("nested")) else [None] * n
     lock2 = None
     if case.get("nested"):
         lock2 = Lock(ctx, "lock2", suspend_uncontended=case["lock_susp"],
@@ -146,7 +147,9 @@ def run_config(case, choices=None, default="rr"):
     contention = [False]
 
     async def consumer(i):
-        child = children[i]
+        # ("late_index": a consumer takes its child out of the tee by index only when it starts - possibly after a
+        #  sibling has advanced; a tee's children all exist, and all buffer, from the moment the tee was made)
+        child = children[i] if not (case.get("late_index") and not case.get("nested")) else handle[i]
         limit = case["closes"][i]
         inside = False
         try:
